@@ -25,7 +25,7 @@ func init() {
 			StatesMean:  "runner states visited = (program, trace prefix) pairs; transitions = real Next calls compared with the model",
 			Assumptions: []string{"small-scope hypothesis: programs beyond the statement bound are not explored", "canonical layout except in F1-layout (layout is C08's subject)", "reference interpreter (internal/yarncore/interp.go) is the specification of Yarn's sequential semantics"},
 		},
-		QuickBudget: 70 * time.Second, ThoroughBudget: 14 * time.Minute, CrashIsViolation: true,
+		QuickBudget: 180 * time.Second, ThoroughBudget: 14 * time.Minute, CrashIsViolation: true,
 		Run: runC01,
 	})
 }
